@@ -53,6 +53,15 @@ Example C17_nonvacuous :
   loads (requests ok empty [0; 1; 0; 2; 1; 2; 0]%nat) = [0; 1; 2; 2]%nat /\ length loop_access = 93%nat /\ length registry_access = 12%nat.
 Proof. vm_compute. repeat split. Qed.
 
+(* deadlock, the part that involves mutexes: on the table of synchronisation events regenerated from eventloop.go (every lock
+   acquisition, blocking channel operation, condition wait, and call made while a mutex is held, with the mutexes held there)
+   the mutexes are acquired in one global order and never re-acquired, nothing that can block on another thread - a channel
+   operation, a blocking select, a function value, foreign code - runs inside a critical section (calls of this file's own
+   functions are followed transitively), and the only wait inside one is stopCond.Wait() holding exactly stopLock *)
+Theorem C17_lock_discipline : lock_discipline loop_sync = true.
+Proof. exact loop_lock_discipline. Qed.
+Print Assumptions C17_lock_discipline.
+
 (* every function of console/module.go and util/module.go (what is created per runtime, what is looked up at call time) has
    the text the model and the claims of this property were written against (regenerated from the source on every run) *)
 Theorem C17_console_util_source_tie : console_util_src = expected_console_util_src.
